@@ -25,6 +25,10 @@ def build(repo, tier, seed):
     syn = syn + [x for x in co_syn if "evaluates-nothing" in x["name"]]
     ce_und = ce_und + co_und
     und = und + ce_und
+    from . import definition_time
+    dl_syn, dl_und = definition_time.laziness(repo)
+    syn = syn + dl_syn
+    und = und + dl_und
     import hashlib
     hashes = {"labrea/*.py": hashlib.sha256("".join(m.source for _, m in sorted(repo.modules.items())).encode()).hexdigest()[:16]}
     fns = []
@@ -39,4 +43,5 @@ def build(repo, tier, seed):
             "assumptions": ["children are used by contract: 'a body runs' is observed as the evaluate call on the child that owns it",
                             "validate/keys/explain of every class under contract (used during evaluation by coalesce and by cache fingerprints) run no body outside selector positions: law L10 per class",
                             "construction-time: methods listed in contracts/lazy_c06.py CONSTRUCTORS + Dataset._composed/with_options; DatasetFactory.wrap (what @dataset finally calls) evaluates nothing (group DatasetFactory.wrap:C08); "
-                            "the other decorators (interface, implements, datasetclass, pipeline_step) and functions.py helpers are NOT under contract (no claim)"]}
+                            "every definition-time function (decorators, lift, factories, metaclass constructors, builders; list in contracts/definition_time.py) contains, outside nested functions, no call that "
+                            "evaluates or inspects an expression (AST obligation, group definition-time:C06); what those functions build is the plumbing group of C05/C07/C13"]}
